@@ -243,8 +243,13 @@ prop("C17", "the registered handler follows the connection", "fault_enumeration"
      "connections and at settle points, each batch followed by a QoS1 sync marker. Oracle: every injected message on a connection "
      "whose marker was acknowledged reached the handler in force (the last Handle call that returned before the message became "
      "readable); handlers registered concurrently with the arrival are also acceptable; no other handler may receive it; QoS0 "
-     "exactly once. Non-trivial = >= 1 judged message on a connection after the first; distinct = FNV-64 of the case JSON.",
-     [dict(tests="^TestVerifC17_Handler$", checks_quick=3000, checks_thorough=45000, shards=12)])
+     "exactly once. Non-trivial = >= 1 judged message on a connection after the first; distinct = FNV-64 of the case JSON. "
+     "Handle is also called from the ConnState(Active) callback, held up inside the client while the connection is replaced (three "
+     "stall points: the old client's lock, the next client's lock, the statistics lock inside Connect), and a client that has stopped "
+     "is a verdict. ManualSwitch: a RetryClient driven by hand switches to a new connection while the previous one stays open; "
+     "messages arriving on either afterwards must reach the handler.",
+     [dict(tests="^TestVerifC17_Handler$", checks_quick=3000, checks_thorough=45000, shards=12),
+      dict(tests="^TestVerifC17_ManualSwitch$", checks_quick=200, checks_thorough=3000, shards=2, shards_quick=1)])
 
 prop("C18", "with a response timeout a silent broker cannot stall the client", "fault_enumeration",
      E4RULE + "C18: ResponseTimeout 5..20 ms, keep-alive off; 1..3 dropAck faults (PUBACK, PUBREC, PUBCOMP, SUBACK, UNSUBACK processed by "
